@@ -806,13 +806,7 @@ func c05Corpus(req, reply []byte, e *Env) (items [][]byte, classes []string) {
 	return
 }
 
-func lastEvent(b *refbmc.BMC) *refbmc.Event {
-	evs := b.Events()
-	if len(evs) == 0 {
-		return nil
-	}
-	return &evs[len(evs)-1]
-}
+func lastEvent(b *refbmc.BMC) *refbmc.Event { return b.Last() }
 
 func c05SubstFlow(run *ev.Run, flow string, seed int64, only int) {
 	if only == 0 {
